@@ -50,10 +50,7 @@ func (node *tagIncludeNode) Execute(ctx *ExecutionContext, writer TemplateWriter
 			return ctx.Error("Filename for 'include'-tag evaluated to an empty string.", nil)
 		}
 
-		// Get include-filename
-		includedFilename := ctx.template.set.resolveFilename(ctx.template, filename.String())
-
-		includedTpl, err2 := ctx.template.set.FromFile(includedFilename)
+		includedTpl, err2 := ctx.template.set.fromFileRelative(ctx.template, filename.String())
 		if err2 != nil {
 			// if this is ReadFile error, and "if_exists" flag is enabled
 			if node.ifExists && err2.(*Error).Sender == "fromfile" {
@@ -97,7 +94,7 @@ func tagIncludeParser(doc *Parser, start *Token, arguments *Parser) (INodeTag, *
 
 		// Parse the parent
 		includeNode.filename = includedFilename
-		includedTpl, err := doc.template.set.FromFile(includedFilename)
+		includedTpl, err := doc.template.set.fromFileRelative(doc.template, filenameToken.Val)
 		if err != nil {
 			// if this is ReadFile error, and "if_exists" token presents we should create and empty node
 			if err.(*Error).Sender == "fromfile" && ifExists {
